@@ -130,6 +130,8 @@ pub fn strategy() -> BoxedStrategy<Req> {
     let nt = torsion_encodings().len();
     prop_oneof![
         3 => signing_key_verifiers(),
+        // hazmat::raw_verify with a pass-through context digest: the challenge k is chosen (see c15::chosen_k)
+        2 => super::c15::chosen_k(),
         // the identity as the key (k*A = O for every k): (R = [S]B, S) is a VALID signature on every message for
         // ANY canonical S - the only way to put a chosen S, e.g. one in [2^252, l), into an accepted signature
         // without forging (added after the seeded change C08g: a pre-check that refused S with bit 252 set)
@@ -228,6 +230,9 @@ pub fn strategy() -> BoxedStrategy<Req> {
 
 pub fn classify(r: &Req, resp: &Resp) -> Vec<&'static str> {
     let mut l = vec![];
+    if r.op == "tot.verify_chosen_k" {
+        return if *resp == Resp::Ok(vec![1]) { vec!["chosen-challenge", "chosen-challenge-accepted"] } else { vec!["chosen-challenge"] };
+    }
     if r.op == "sig.key_eq" {
         return if r.a[0] != r.a[1] && *resp != Resp::Rej { vec!["key-equality-on-distinct-encodings"] } else { vec![] };
     }
